@@ -110,6 +110,8 @@ const boundText = "5 s + 2 ms/byte"
 type isolated struct {
 	p        *proc
 	emptyDir string
+	served   []string // what the current child has answered so far (the last 16), oldest first
+	nServed  int
 }
 
 func (w *isolated) close() {
@@ -124,7 +126,31 @@ func (w *isolated) close() {
 // four times the bound (at least 60 s), so that a machine busy with other work does not turn slow
 // progress into a reported hang; the second verdict counts.
 func (w *isolated) run(h *History) Verdict {
+	before, nBefore := append([]string{}, w.served...), w.nServed
 	v := w.runOnce(h, bound(h))
+	if v.Crashed && v.Kind == "died" {
+		// A fatal runtime error (stack overflow, out of memory, a signal) ends the whole child, which
+		// had answered other histories before: the culprit is named by running this history again,
+		// alone, in a fresh child.
+		b := 4 * bound(h)
+		if b < 60*time.Second {
+			b = 60 * time.Second
+		}
+		v2 := w.runOnce(h, b)
+		switch {
+		case v2.Crashed && (v2.Kind == "died" || v2.Kind == "resource" || v2.Kind == "panic"):
+			note := "[confirmed: the history was run a second time, alone in a fresh child, and ended it again (first run: " + short(firstLine(v.Msg), 160) + ")]"
+			v2.Msg = firstLine(v2.Msg) + "\n" + note + strings.TrimPrefix(v2.Msg, firstLine(v2.Msg))
+			return v2
+		case v2.Crashed:
+			v.Msg += "\n[second run alone in a fresh child: " + v2.Kind + ": " + firstLine(v2.Msg) + "]"
+		default:
+			// not reproduced alone: the death depends on what the child had done before
+			v.Msg = fmt.Sprintf("the child died while running this history; a fresh child survives it alone, so the death depends on the %d histories the child "+
+				"had answered before (the last ones: %s)\n%s", nBefore, strings.Join(before, " | "), v.Msg)
+		}
+		return v
+	}
 	if v.Crashed && v.Kind == "timeout" {
 		b := 4 * bound(h)
 		if b < 60*time.Second {
@@ -147,7 +173,17 @@ func (w *isolated) runOnce(h *History, b time.Duration) Verdict {
 			os.Exit(2)
 		}
 		w.p = p
+		w.served, w.nServed = nil, 0
 	}
+	defer func() {
+		if w.p != nil {
+			w.nServed++
+			w.served = append(w.served, short(h.What, 80))
+			if len(w.served) > 16 {
+				w.served = w.served[1:]
+			}
+		}
+	}()
 	req, _ := json.Marshal(h)
 	t0 := time.Now()
 	w.p.in.WriteString(base64.StdEncoding.EncodeToString(req))
